@@ -1479,6 +1479,7 @@ func init() {
 	purityRule("R1s", "PURITY-SORT", 1, "(qframe.QFrame).Sort")
 	purityRule("R1g", "PURITY-GROUP", 4, "(qframe.QFrame).GroupBy", "(qframe.Grouper).Aggregate", "(qframe.Grouper).QFrames", "(qframe.QFrame).Distinct")
 	purityRule("R1a", "PURITY-APPLY", 4, "(qframe.QFrame).Apply", "(qframe.QFrame).FilteredApply", "(qframe.QFrame).WithRowNums", "(qframe.QFrame).Eval")
+	purityRule("R1x", "PURITY-EXPR", 2, "qframe.Expr", "qframe.Val")
 	purityRule("R1n", "PURITY-PROJECT", 6, "qframe.New", "(qframe.QFrame).Select", "(qframe.QFrame).Drop", "(qframe.QFrame).Slice", "(qframe.QFrame).Copy", "(qframe.QFrame).Filter")
 }
 
